@@ -29,22 +29,24 @@ const qFactorWeightingKey = "q"
 func sortedMimes(accept string) (sorted []mime) {
 	for _, each := range strings.Split(accept, ",") {
 		typeAndQuality := strings.Split(strings.Trim(each, " "), ";")
+		// optional whitespace around the separators is not part of the media type
+		media := strings.Trim(typeAndQuality[0], " ")
 		if len(typeAndQuality) == 1 {
-			sorted = insertMime(sorted, mime{typeAndQuality[0], 1.0})
+			sorted = insertMime(sorted, mime{media, 1.0})
 		} else {
 			// take factor
 			qAndWeight := strings.Split(typeAndQuality[1], "=")
 			if len(qAndWeight) == 2 && strings.Trim(qAndWeight[0], " ") == qFactorWeightingKey {
-				f, err := strconv.ParseFloat(qAndWeight[1], 64)
+				f, err := strconv.ParseFloat(strings.Trim(qAndWeight[1], " "), 64)
 				if err != nil {
 					if trace {
 						traceLogger.Printf("unable to parse quality in %s, %v", each, err)
 					}
 				} else {
-					sorted = insertMime(sorted, mime{typeAndQuality[0], f})
+					sorted = insertMime(sorted, mime{media, f})
 				}
 			} else {
-				sorted = insertMime(sorted, mime{typeAndQuality[0], 1.0})
+				sorted = insertMime(sorted, mime{media, 1.0})
 			}
 		}
 	}
